@@ -82,6 +82,11 @@ def judge(ctx, what, jac, jac_q, data, weights, damping, params, pred_q, kernel_
     obj = kernels.objective(jac / s, data, ww, damping, params * s)
     dmax = float(np.max(np.abs(data))) if data.size else 0.0
     slack = float(np.sum(ww)) * (64 * cond * EPS * dmax) ** 2 + 1e-290
+    # round-off in *evaluating* the objective: each residual d - a.p is known to 16 eps |a|.|p| only (large, cancelling
+    # parameters when the system is ill conditioned); found by the thorough tier at kappa ~ 5e8
+    a_s = np.abs(jac / s)
+    r_err = 16 * EPS * max(float(np.max(a_s @ np.abs(params * s))), float(np.max(a_s @ np.abs(p_ref * s))))
+    slack += 2 * r_err * float(np.sqrt(np.sum(ww) * max(obj_ref, 0.0))) + float(np.sum(ww)) * r_err**2
     if not obj <= obj_ref * (1 + 1e-8) + slack:
         raise Violation("%s: objective at verde's parameters is %.10e, the weighted damped least-squares optimum is %.10e (damping=%r, weights=%s, kappa %.2e)"
                         % (what, obj, obj_ref, damping, "given" if w is not None else "none", cond))
